@@ -45,6 +45,8 @@ def to_xsd(node, version='1.0'):
         tok = node[1]
         if ':' in tok:
             name, ty = tok.split(':')
+            if ty.startswith('@'):          # an anonymous inline type: every occurrence is a type definition of its own
+                return '<xs:element name="%s"%s><xs:simpleType><xs:restriction base="xs:%s"/></xs:simpleType></xs:element>' % (name, oa, ty[1:].rstrip('0123456789'))
             return '<xs:element name="%s" type="xs:%s"%s/>' % (name, ty, oa)
         return '<xs:element ref="%s"%s/>' % (tok, oa)
     if k == 'w':
@@ -238,6 +240,20 @@ def catalogue_11():
             seen.add(r)
             res.append(s)
     return res
+
+
+def catalogue_edc():
+    """same-named LOCAL element declarations with equal / different named types and with anonymous inline types
+    (Element Declarations Consistent); a differently named element in between keeps the models deterministic"""
+    return [
+        S(E('x:int'), E('b'), E('x:int')),            # consistent
+        S(E('x:int'), E('b'), E('x:string')),         # different named types
+        S(E('x:@int1'), E('b'), E('x:@string2')),     # different anonymous types
+        S(E('x:@int1'), E('b'), E('x:@int2')),        # two anonymous definitions over the same base: not the same type
+        S(E('x:@int1'), E('b'), E('x:int')),          # anonymous vs named
+        S(E('x:int'), C(E('b'), E('x:string'))),      # the second declaration sits in a nested choice
+        S(E('a'), E('b'), E('a')),                    # references to one global declaration: consistent
+    ]
 
 
 def catalogue_deep():
